@@ -396,6 +396,52 @@ fn key_pool(r: &mut Rng, ks: &KeySets, kind: &mut String) -> Vec<Key> {
     pool
 }
 
+/// A big dict built in one `from`, then taken apart key by key in random order (every collapse path
+/// of `remove` on multi-level tries), with counts / reads in between and a re-insertion at the end.
+fn gen_bulk(r: &mut Rng, ks: &KeySets, n_keys: usize) -> History {
+    let mut keys: Vec<Key> = vec![];
+    let n = n_keys / 2 + r.usize(n_keys / 2);
+    while keys.len() < n {
+        keys.push(random_key(r));
+    }
+    // a deep fragment group and a full-collision group inside the big trie
+    let j = 1 + r.usize(5);
+    if !ks.frag[j].is_empty() {
+        for b in &ks.frag[j][r.usize(ks.frag[j].len())] {
+            keys.push(Key::Bin(b.clone()));
+        }
+    }
+    for b in &ks.full[r.usize(ks.full.len())] {
+        keys.push(Key::Str(b.clone()));
+    }
+    keys.sort();
+    keys.dedup();
+    r.shuffle(&mut keys);
+    let mut ops = vec![Op::From(keys.iter().enumerate().map(|(i, k)| (k.clone(), i as i64 + 1)).collect())];
+    ops.push(Op::Count(1));
+    let mut order = keys.clone();
+    r.shuffle(&mut order);
+    let mut v = 1usize;
+    let keep = r.usize(3);
+    for (i, k) in order.iter().enumerate() {
+        if order.len() - i <= keep {
+            break;
+        }
+        ops.push(Op::Remove(v, k.clone()));
+        v += 1;
+        if i % 16 == 5 {
+            ops.push(Op::Count(v));
+            ops.push(Op::Get(v, order[r.usize(order.len())].clone()));
+        }
+    }
+    ops.push(Op::Entries(v));
+    ops.push(Op::Put(v, order[0].clone(), 77));
+    ops.push(Op::Get(v + 1, order[0].clone()));
+    ops.push(Op::Merge(v + 1, 1));
+    ops.push(Op::Count(v + 2));
+    History { kind: "bulk".into(), ops }
+}
+
 fn gen_history(r: &mut Rng, ks: &KeySets, max_ops: usize) -> History {
     let mut kind = String::new();
     let pool = key_pool(r, ks, &mut kind);
@@ -859,7 +905,7 @@ fn run_impl(src: &str, n_ops: usize, modules: &HashMap<Vec<String>, String>, b: 
         Err(e) => return ImplRun { fields: Err(format!("front-end: {e:?}")) },
     };
     let bc = unit.program.to_bytecode(Some(unit.entry));
-    let (out, ex) = match qverif::catch(|| run_sync_limited(bc.clone(), b, 2000 + 400 * n_ops as u64)) {
+    let (out, ex) = match qverif::catch(|| run_sync_limited(bc.clone(), b, 5000 + 300 * n_ops as u64 + 2 * (n_ops * n_ops) as u64)) {
         Ok(Ok(x)) => x,
         Ok(Err(e)) => return ImplRun { fields: Err(format!("run: {e}")) },
         Err(p) => (run::RunOutcome::Panic(p), None),
@@ -1388,8 +1434,8 @@ fn main() {
             break;
         }
         let mut r = Rng::for_case(opts.seed ^ 0xC19, i);
-        let m = if i % 7 == 0 { max_ops } else { 4 + (max_ops - 4) / 3 };
-        let h = gen_history(&mut r, &ks, m);
+        let m = if i % 3 == 0 { max_ops } else { 4 + (max_ops - 4) / 2 };
+        let h = if i % 25 == 24 { gen_bulk(&mut r, &ks, opts.tier.pick(120, 400)) } else { gen_history(&mut r, &ks, m) };
         let v = judge(&h, &modules, &b, &mut model);
         let (_, host_vers) = host_run(&h);
         let nontrivial = host_vers.iter().any(|m| m.len() >= 2) && h.ops.iter().any(|o| !o.creates());
